@@ -64,10 +64,13 @@ CHECKS = {
              'strictly increasing, d(offset)<=d(sample), last offset inside the stored rows, all samples inside the file window, rows <= window '
              'capacity), exactly the 19 documented attributes with the writer\'s parameters, and sequence numbers 0,1,2.. in file-time order; W0 '
              'shows the rows handed to HDF5 are well formed for all arguments; digital_rf_handle_metadata (create) writes exactly the 15 '
-             'channel attributes. Witness histories are run on the real build and every file\'s index compared semantically.',
-        note='Trusted: z3, IR executor, stubs; attribute values are what is handed to H5Awrite. recreate_properties_file: checks/pylayer.py.',
-        technique='symbolic execution of LLVM IR to SMT (z3) over an event-trace model of the files',
-        design_ref='DESIGN.md section 4 C06'),
+             'channel attributes. CrossHair confirms over all paths (16 directory-state cases) that the real recreate_properties_file never '
+             'overwrites an existing properties file and otherwise writes exactly those 15 attributes with the values of a finalized data file '
+             'opened read-only. Witness histories are run on the real build and every file\'s index compared semantically; the properties file '
+             'is regenerated from each data file of four real channels and compared with the original.',
+        note='Trusted: z3, CrossHair, IR executor, stubs; attribute values are what is handed to H5Awrite.',
+        technique='symbolic execution of LLVM IR to SMT (z3) over an event-trace model of the files + CrossHair on recreate_properties_file',
+        design_ref='DESIGN.md sections 4 C06, 9.2'),
     'C08': dict(
         level='model_checking',
         text='CrossHair (per-path z3 queries) on the real reader functions with list-backed stand-ins for h5py datasets: Confirmed over all '
@@ -93,9 +96,12 @@ CHECKS = {
              'confirms over all paths that _decorated_list_slice selects exactly the inclusive window (+ forward fill, ties included) for up '
              'to 3 sorted entries, and that _yield_matching_files on an in-memory channel (3 subdirectories, symbolic existence of up to 4 '
              'files, symbolic window, each subdirectory possibly vanishing) yields exactly the in-window files in time order, plus the latest '
-             'earlier metadata file, never raises, and that reversing only reverses the order (16 per-case harnesses).',
-        note='Trusted: z3, CrossHair, the in-memory os.listdir, a pure-Python bisect (stdlib reference implementation) and an integer-backed '
-             'timedelta-like bound. The ilsdrf tree walk (nested channels, property files) is covered through C15/C18 harnesses only partly.',
+             'earlier metadata file, never a stray tmp. file, never raises, and that reversing only reverses the order (26 per-case harnesses). '
+             'The ilsdrf tree walk is run on an in-memory tree (nested, legacy metadata.h5 and timestamp-nested channels, stray / tmp. / '
+             'non-channel files, symbolic presence of 6 files) for every include-flag combination, recursive / reverse and three start paths: '
+             'exactly the qualifying files of every channel, once, properties per their own flags, directories in sorted order.',
+        note='Trusted: z3, CrossHair, the in-memory os.listdir / os.walk, a pure-Python bisect (stdlib reference implementation) and an '
+             'integer-backed timedelta-like bound. Window slicing and tree walk are decided separately (the walk without a time window).',
         technique='z3 regular-expression emptiness + CrossHair symbolic execution of the real listing functions',
         design_ref='DESIGN.md section 4 C14'),
     'C15': dict(
@@ -117,7 +123,9 @@ CHECKS = {
              'under all three limits (12 per-case harnesses), Confirmed over all paths that the bookkeeping equals the truth (records <-> '
              'queues bijection, per-channel time order, tracked size == sum of tracked sizes), a file is deleted only if it is the oldest '
              'tracked file of its channel and some limit is exceeded at that moment, removal notifications delete nothing, and every limit '
-             'holds again after a reported file was handled. z3 regex emptiness shows the path filter can never match properties or tmp. files.',
+             'holds again after a reported file was handled; two reports followed by a moved (renamed) event with any source and destination '
+             'under count and size limits: every deletion is judged against the files that really exist. z3 regex emptiness shows the path '
+             'filter can never match properties or tmp. files.',
         note='Trusted: CrossHair/z3, the os stub; records injected directly (time key from the concrete file names, symbolic sizes). Longer '
              'histories and re-verification after observer restart are outside the claim.',
         technique='CrossHair symbolic execution of the real ringbuffer classes + z3 regex emptiness',
@@ -128,7 +136,8 @@ CHECKS = {
              'recorded event trace is a crash point) z3 shows that a data file comes into existence only by an exclusive create of '
              'dir/<subdir>/tmp.<name of its window> after the final name was seen absent, is renamed tmp.X -> X exactly once and only after '
              'its two datasets and the file were closed, is never named by a later event, and that after close no tmp file of this writer is '
-             'left. The channel properties file is shown to be staged (tmp + rename after close). z3 regex emptiness shows no reader / lister / '
+             'left; in a later session on a directory where any finalized file and any stale tmp. file may already exist, only files this '
+             'writer created and closed are ever renamed to a final name. The channel properties file is shown to be staged (tmp + rename after close). z3 regex emptiness shows no reader / lister / '
              'watcher grammar accepts a tmp. name. A real recording under strace validates the event model (creates, closes, renames).',
         note='Trusted: z3, IR executor, stubs; HDF5 writes only to the file it was asked to create and the file is complete after H5Fclose; '
              'rename is atomic. Content of finalized files: C01/C06.',
@@ -148,8 +157,8 @@ CHECKS = {
     'C13': dict(
         level='proof',
         text='The numeric expressions of the real writer (file-index key, file and subdirectory timestamps) and reader (candidate window, '
-             'subdirectory/file loops, mask, name format) are read from the AST on every run and translated to SMT; numpy.longdouble steps, '
-             'when present, are modelled exactly (IEEE round-to-nearest-even encoded in LIA per binade). z3 shows for every index with time '
+             'subdirectory/file loops, mask, name format) are read from the AST on every run and translated to SMT; numpy.longdouble and '
+             'Python float (int / int true division) steps, when present, are modelled exactly (IEEE round-to-nearest-even encoded in LIA per binade). z3 shows for every index with time '
              'in 1980..2100, per (rate, cadence) configuration, that the writer stores sample k in <prefix>@mfile(k).h5 under the subdirectory '
              'of mfile(k), that the reader\'s loops yield that file for every range containing k, and that a single-sample query looks in exactly '
              'that file.',
@@ -178,7 +187,7 @@ CHECKS = {
              'that it happened. z3 shows: a file one of whose operations failed is never renamed to its final name; an accepted sample that '
              'does not end up in an intact published file is reported no later than the first call after the failure; after has_failure the '
              'writer refuses further writes; files finalized before the fault are not touched. The real build is then run under an '
-             'LD_PRELOAD fault injector (write / rename / mkdir failing at every position, once or persistently) to validate the model.',
+             'LD_PRELOAD fault injector (write / rename / mkdir failing at each of 17 positions incl. the final flush, once or persistently) to validate the model.',
         note='Trusted: z3, IR executor, stubs; an OS failure surfaces as the failure of some HDF5/libc call of the writer. Histories: 2 calls '
              '(thorough 3) + close, <= 2 files per call.',
         technique='symbolic execution of LLVM IR to SMT (z3) with symbolic fault schedules + fault-injection replay on the real build',
